@@ -47,6 +47,7 @@ type Exec struct {
 	leaf map[string]Comp
 	pendingClosure *Closure
 	quantDepth int
+	curFlagGuard string
 	curInstr ssa.Instruction
 	ordTab map[*ssa.Function]map[ssa.Instruction]int
 }
@@ -672,6 +673,7 @@ func (st *State) addEvent(e Event) {
 	e.Heap = h
 	e.Loop = st.curLoop
 	e.Held = append([]HeldLock(nil), st.held...)
+	st.x.flagObligation(st, e)
 	st.events = append(st.events, e)
 	st.x.countEvent(st, e)
 }
@@ -1234,5 +1236,48 @@ func (x *Exec) globalFacts(st *State, g *ssa.Global, v Val) {
 		x.assumeNote("A-global: hwebsocket.ErrModuleMsgSkip is the constant error of type \"module_msg_skip\"")
 		st.assume(Neq(v.T(), TZero))
 		st.assume(Eq(x.errType(v.T()), x.strLit("module_msg_skip")))
+	}
+}
+
+// flagClass: the DISABLE_* flag that names each relayed message class (from the statement of C17).
+var flagClass = map[string]string{
+	"common/messages/hagallpb.SessionState":                   "DISABLE_SESSION_STATE",
+	"common/messages/hagallpb.ParticipantJoinBroadcast":       "DISABLE_PARTICIPANT_JOIN_BROADCAST",
+	"common/messages/hagallpb.ParticipantLeaveBroadcast":      "DISABLE_PARTICIPANT_LEAVE_BROADCAST",
+	"common/messages/hagallpb.EntityAddBroadcast":             "DISABLE_ENTITY_ADD_BROADCAST",
+	"common/messages/hagallpb.EntityDeleteBroadcast":          "DISABLE_ENTITY_DELETE_BROADCAST",
+	"common/messages/hagallpb.EntityUpdatePoseBroadcast":      "DISABLE_ENTITY_UPDATE_POSE_BROADCAST",
+	"common/messages/hagallpb.CustomMessageBroadcast":         "DISABLE_CUSTOM_MESSAGE_BROADCAST",
+	"common/messages/hagallpb.EntityComponentAddBroadcast":    "DISABLE_ENTITY_COMPONENT_ADD_BROADCAST",
+	"common/messages/hagallpb.EntityComponentUpdateBroadcast": "DISABLE_ENTITY_COMPONENT_UPDATE_BROADCAST",
+	"common/messages/hagallpb.EntityComponentDeleteBroadcast": "DISABLE_ENTITY_COMPONENT_DELETE_BROADCAST",
+}
+
+// flagObligation (C17): a message is emitted under the guard of exactly the flag that names its class.
+func (x *Exec) flagObligation(st *State, e Event) {
+	if st.dryWrites != nil || !(e.Kind == "send" || x.eng.eventKinds[e.Kind]) {
+		return
+	}
+	guard := st.currentFlagGuard()
+	for _, a := range e.Args {
+		if a.Dyn == nil {
+			continue
+		}
+		pt, ok := types.Unalias(a.Dyn).Underlying().(*types.Pointer)
+		if !ok {
+			continue
+		}
+		cls := typeName(pt.Elem())
+		if !strings.HasPrefix(cls, "common/messages/") {
+			continue
+		}
+		want := flagClass[cls]
+		short := cls[strings.LastIndex(cls, ".")+1:]
+		name := "flag:" + short
+		if want == guard {
+			st.obls = append(st.obls, Obl{Name: name, Tags: []string{"C17"}, Goal: TTrue, PCLen: len(st.pc), Static: "ok", Desc: short + " is emitted under exactly its own flag (" + want + ")"})
+		} else {
+			st.obligeStaticFail(name, []string{"C17"}, fmt.Sprintf("%s is emitted under flag guard %q but its class is named by %q", short, guard, want))
+		}
 	}
 }
